@@ -243,6 +243,16 @@ def a1_traces(ctx):
     ok = any(unparse(s.slice.elts[0]) == ':' and unparse(s.slice.elts[1]) == cm for s in sub)
     ctx.check(ok, 'C04.A1', fi, sub[0] if sub else '_load_traces', 'raw traces are lazily column-selected by the channel map (traces[:, channel_map])',
               'raw traces are not column-selected by the channel map')
+    if sub:
+        okg = True
+        why = ''
+        for ifn, br in q.enclosing_ifs(fi, sub[0]):
+            t = unparse(ifn.test).replace(' ', '')
+            allowed = t in ('tracesisnotNone', 'tracesisnotNoneand%sisnotNone' % cm, '%sisnotNoneandtracesisnotNone' % cm, 'traces', '%sisnotNone' % cm) and br == 'body'
+            if not allowed:
+                okg, why = False, unparse(ifn.test)
+        ctx.check(okg, 'C04.A1', fi, sub[0], 'the channel-map selection is applied to every raw reader (it also drops raw channels that are not in the map)',
+                  'the channel-map selection is skipped depending on `%s`: a raw file with more channels than the channel map keeps its extra columns' % why)
     ld = repo.lookup_method(cls, '_load_data')
     calls = [c for c in ld.calls() if q.method_name(c) == '_load_traces']
     ctx.check(bool(calls) and calls[0].args and unparse(calls[0].args[0]) == 'self.channel_mapping', 'C04.A1', ld, calls[0] if calls else '_load_data',
